@@ -29,3 +29,8 @@ GROUPS = [
  _p("rpdo_init", "CORPdoInit", 5, _PDO, {"C13": "quick", "C20": "quick", "C01": "quick"}, harness="pdo_reset_fn.c", defs=["VW_OP=5", "VW_MAPN_MAX=1"], unwind={"CORPdoGetMap.1": 4, "CORPdoGetMap.0": 8}, timeout=900,
     bounded="stored mapping count <= 1 entry (the mapping itself is the rpdo_getmap group); 4 RPDOs, everything else symbolic"),
 ]
+# application-side triggers (explicit form; the callee inside co_pdo.c is stubbed by removing its body from the goto binary, vf.py stub_bodies)
+GROUPS += [
+ _p("tpdo_trig_pdo", "COTPdoTrigPdo", 0, ["service/cia301/co_pdo.c"], {"C12": "quick", "C01": "quick"}, harness="pdo_trig.c", stub_bodies={"service/cia301/co_pdo.c": ["COTPdoTx"]}, cost=2),
+ _p("tpdo_trig_obj", "COTPdoTrigObj", 1, ["service/cia301/co_pdo.c"], {"C12": "quick", "C01": "quick"}, harness="pdo_trig.c", stub_bodies={"service/cia301/co_pdo.c": ["COTPdoTrigPdo"]}, unwind_all=33, cost=5, sat="cadical"),
+]
